@@ -29,7 +29,9 @@ RULE = ('trait-combination images built from each format\'s layout (qcow2: each 
         'protective table, random (quick) or all 10^4 (thorough) combinations; raw/vhd/vdi/iso/vhdx clean) plus '
         'truncations at every structure boundary, each streamed under chunkings from images.chunkings (one chunk, '
         'fixed sizes, cuts at -1/0/+1 of structure boundaries, random, empty chunks); the same images as files '
-        'for detect_file_format and the CLI. A case is non-trivial when the checks actually ran on both sides '
+        'for detect_file_format, from_file and the CLI; chunks are presented as bytes or as bytearray / memoryview '
+        'slices of one reused buffer that afterwards holds a clean header of the same format; every verdict is '
+        'taken three times on the same inspector, interleaved with the other property reads. A case is non-trivial when the checks actually ran on both sides '
         '(verdict ok or failed:<names>) or, for the CLI, when a specific (non-raw) format was detected; distinct by '
         '(format, content digest, chunking)')
 TRUSTED_BASE = [
@@ -73,12 +75,27 @@ def proj_detect(reply):
     return '%s match=%s complete=%s safety=%s %s' % (name, v.get('match'), v.get('complete'), v.get('safety'), ex)
 
 
-def case_of(it, sizes, kind='insp'):
+def case_of(it, sizes, kind='insp', feed='bytes'):
     c = {'kind': kind, 'fmt': it['fmt'], 'label': it['label'], 'expect': it['expect'], 'cli': it.get('cli', 'free'),
          'content': insp_impl.content_field(it['data'])}
     if kind == 'insp':
         c['sizes'] = list(sizes)
+        if feed != 'bytes':
+            c['feed'] = feed
     return c
+
+
+def impl_verdicts(fmt, data, sizes, feed='bytes'):
+    """the implementation's verdict taken three times on the SAME inspector (each taking reads format_match,
+    complete, virtual_size, runs safety_check and reads context_info): a verdict is a function of the bytes, so
+    the three agree - and agree with the model.  With a reused-buffer feed the buffer is refilled with a clean
+    header of the same format before the verdicts are taken."""
+    i, raised = G.feed_inspector(fmt, data, sizes, feed, G.clean_header(fmt) if feed != 'bytes' else None)
+    return [proj(insp_impl.show_verdict(i, None)) for _ in range(3)]
+
+
+def pick_feed(rng):
+    return rng.choice(['bytes', 'bytes', 'bytearray', 'memoryview', 'memoryview'])
 
 
 def family_of(label):
@@ -119,9 +136,12 @@ def correspondence(ctx):
     out = []
     for (it, sizes), rep in zip(cases, replies):
         ctx.evaluations += 1
-        impl, _ = insp_impl.run_insp(it['fmt'], it['data'], sizes)
-        pi, pm = proj(impl), proj(rep)
-        saf = G.verdict_fields(impl).get('safety', '?')
+        feed = pick_feed(rng)
+        vs = impl_verdicts(it['fmt'], it['data'], sizes, feed)
+        pm = proj(rep)
+        pi = vs[0] if vs[0] == vs[1] == vs[2] else 'REPEATED QUERIES DISAGREE: ' + ' ~ '.join(vs)
+        saf = G.verdict_fields(vs[0]).get('safety', '?')
+        ctx.count('feed/' + feed)
         ctx.count('corr/insp/' + it['fmt'])
         ctx.count('verdict/' + saf.split(':')[0] + (':' + saf.split(':')[1] if ':' in saf else ''))
         ctx.count('expect/' + it['expect'])
@@ -131,7 +151,7 @@ def correspondence(ctx):
           ctx.sample({'label': it['label'], 'expect': it['expect'], 'length': len(it['data']), 'chunks': len(sizes),
                     'implementation': pi, 'model': pm}, 5)
         if pi != pm:
-            out.append(Disagreement(case_of(it, sizes), pi, pm))
+            out.append(Disagreement(case_of(it, sizes, feed=feed), pi, pm))
     # detect_file_format + CLI exit status on real files
     files = cli_files([it for it in items if len(it['data']) <= 64 * images.K], rng, 18 if ctx.quick else 290)
     big = [it for it in items if len(it['data']) > 64 * images.K]
@@ -160,30 +180,43 @@ def correspondence(ctx):
 # --------------------------------------------------------------------------
 # failing-input search: the property stated on the implementation only
 
-def insp_oracle(fmt, data, sizes, expect):
-    """None, or how the fail-closed property fails for this image under this chunking"""
-    i, _raised = G.feed_inspector(fmt, data, sizes)
-    o = G.safety_outcome(i)
-    if o.startswith('returned:'):
-        return 'safety_check returned a value: ' + o
-    if o == 'ok':
-        # first sentence of the property, checked on the real object
-        try:
-            cm = (i.complete, i.format_match)
-        except Exception as e:
-            return 'safety_check accepted but complete/format_match raises %s' % type(e).__name__
-        if not (cm[0] and cm[1]):
-            return 'safety_check accepted a stream with complete=%s format_match=%s' % cm
-        if expect == 'unsafe':
-            return 'unsafe image accepted'
-    elif expect == 'clean':
-        return 'clean image not accepted (%s)' % o
+def insp_oracle(fmt, data, sizes, expect, feed='bytes'):
+    """None, or how the fail-closed property fails for this image under this chunking.  The verdict is taken
+    three times on the same inspector, interleaved with reads of the other properties; with a reused-buffer
+    feed the buffer holds a clean header of the same format by then."""
+    i, _raised = G.feed_inspector(fmt, data, sizes, feed, G.clean_header(fmt) if feed != 'bytes' else None)
+    outs = []
+    for k in range(3):
+        o = G.safety_outcome(i)
+        outs.append(o)
+        if o.startswith('returned:'):
+            return 'safety_check returned a value: ' + o
+        if o == 'ok':
+            # first sentence of the property, checked on the real object
+            try:
+                cm = (i.complete, i.format_match)
+            except Exception as e:
+                return 'safety_check accepted but complete/format_match raises %s' % type(e).__name__
+            if not (cm[0] and cm[1]):
+                return 'safety_check accepted a stream with complete=%s format_match=%s' % cm
+            if expect == 'unsafe':
+                return 'unsafe image accepted' + ('' if k == 0 else ' by safety_check call number %d (earlier: %s)'
+                                                  % (k + 1, outs[0]))
+        elif expect == 'clean':
+            return 'clean image not accepted (%s)%s' % (o, '' if k == 0 else ' by safety_check call number %d' % (k + 1))
+        for q in (lambda: i.virtual_size, lambda: i.format_match, lambda: i.context_info, lambda: str(i)):
+            try:
+                q()
+            except Exception:
+                pass
+    if len(set(outs)) != 1:
+        return 'repeated safety_check calls on the same inspector disagree: %s' % ' then '.join(outs)
     return None
 
 
-def shrink_sizes(fmt, data, sizes, expect):
+def shrink_sizes(fmt, data, sizes, expect, feed='bytes'):
     n = len(data)
-    if insp_oracle(fmt, data, [n], expect):
+    if insp_oracle(fmt, data, [n], expect, feed):
         return [n]
     cuts, pos = [], 0
     for s in sizes[:-1]:
@@ -191,7 +224,7 @@ def shrink_sizes(fmt, data, sizes, expect):
         cuts.append(pos)
 
     def still(sub):
-        return insp_oracle(fmt, data, images.sizes_from_cuts(sub, n), expect) is not None
+        return insp_oracle(fmt, data, images.sizes_from_cuts(sub, n), expect, feed) is not None
     if not cuts:
         return sizes
     small = common.shrink_list(cuts, still, max_steps=80)
@@ -270,7 +303,46 @@ def cli_oracle(it_or_case, tmp):
         why = 'CLI exit %d for a clean image (%s)' % (code, head.split(' ctx=')[0])
     elif it_or_case.get('cli') == 'clean' and head.split(' ')[0] != it_or_case['fmt']:
         why = 'clean %s image detected as %s' % (it_or_case['fmt'], head.split(' ')[0])
+    if why is None:
+        why = file_verdicts(it_or_case, tmp)
     return why, line
+
+
+def file_verdicts(it_or_case, tmp):
+    """the other entry points on the same file - detect_file_format(path).safety_check() and
+    <Inspector>.from_file(path).safety_check() - each verdict taken three times on the same object: they agree
+    with each other, and an image that is unsafe as a file is never accepted"""
+    import os
+    F = G.fi()
+    path = os.path.join(tmp, 'img')
+    with open(path, 'wb') as fh:
+        fh.write(it_or_case['data'])
+    objs = []
+    try:
+        objs.append(('detect_file_format', F.detect_file_format(path)))
+    except F.ImageFormatError:
+        pass
+    cls = F.ALL_FORMATS.get(it_or_case.get('fmt'))
+    if cls is not None:
+        try:
+            objs.append(('%s.from_file' % cls.__name__, cls.from_file(path)))
+        except F.ImageFormatError:
+            pass
+        except Exception as e:
+            return 'from_file raised %s' % type(e).__name__
+    for how, i in objs:
+        outs = []
+        for _ in range(3):
+            outs.append(G.safety_outcome(i))
+            try:
+                i.virtual_size, i.format_match
+            except Exception:
+                pass
+        if len(set(outs)) != 1:
+            return 'repeated safety_check calls on the inspector from %s disagree: %s' % (how, ' then '.join(outs))
+        if outs[0] == 'ok' and it_or_case.get('cli') == 'unsafe' and str(i) == it_or_case.get('fmt'):
+            return 'unsafe image accepted through %s' % how
+    return None
 
 
 def search(ctx, seeds, full=False):
@@ -298,23 +370,34 @@ def search(ctx, seeds, full=False):
                 add({'kind': 'check-error', 'fmt': fmt, 'check': name, 'exc': exc.__name__},
                     'check-error', 'check %s of %s raising %s: %s' % (name, fmt, exc.__name__, how), False)
 
-    def try_insp(fmt, data, sizes, expect, label, cli='free'):
+    def try_insp(fmt, data, sizes, expect, label, cli='free', feed='bytes'):
         ctx.evaluations += 1
-        why = insp_oracle(fmt, data, sizes, expect)
+        why = insp_oracle(fmt, data, sizes, expect, feed)
         if why:
-            small = shrink_sizes(fmt, data, sizes, expect)
+            if feed != 'bytes' and insp_oracle(fmt, data, sizes, expect, 'bytes'):
+                feed = 'bytes'                      # the presentation is not what makes it fail
+            small = shrink_sizes(fmt, data, sizes, expect, feed)
             f1 = fmt == 'vmdk' and G.in_class_f1(data)
-            add({'kind': 'insp', 'fmt': fmt, 'label': label, 'expect': expect, 'cli': cli,
-                 'content': insp_impl.content_field(data), 'sizes': small},
-                '%s %s' % (why.split(' (')[0], family_of(label)), '%s: %s, chunk sizes %s' % (label, why, small[:12]), f1)
+            c = {'kind': 'insp', 'fmt': fmt, 'label': label, 'expect': expect, 'cli': cli,
+                 'content': insp_impl.content_field(data), 'sizes': small}
+            if feed != 'bytes':
+                c['feed'] = feed
+            why = insp_oracle(fmt, data, small, expect, feed) or why
+            add(c, '%s %s%s' % (why.split(' (')[0].split(' by safety_check')[0].split(':')[0], family_of(label),
+                                '' if feed == 'bytes' else ' [reused buffer]'),
+                '%s: %s, chunk sizes %s%s' % (label, why, small[:12], '' if feed == 'bytes' else
+                                              ', chunks presented as %s of a reused buffer later refilled with a '
+                                              'clean %s header' % (feed, fmt)), f1)
 
     tmp = tempfile.mkdtemp(prefix='verif-C02s-')
     try:
         for s in seeds[:300]:
             data = G.decode_content(s.get('content', '-'))
             if s.get('kind') == 'insp':
-                try_insp(s['fmt'], data, s['sizes'], s.get('expect', 'free'), s.get('label', 'seed'), s.get('cli', 'free'))
-                try_insp(s['fmt'], data, [len(data)], s.get('expect', 'free'), s.get('label', 'seed'), s.get('cli', 'free'))
+                try_insp(s['fmt'], data, s['sizes'], s.get('expect', 'free'), s.get('label', 'seed'), s.get('cli', 'free'),
+                         s.get('feed', 'bytes'))
+                try_insp(s['fmt'], data, [len(data)], s.get('expect', 'free'), s.get('label', 'seed'), s.get('cli', 'free'),
+                         s.get('feed', 'bytes'))
             elif s.get('kind') == 'cli':
                 ctx.evaluations += 1
                 why, line = cli_oracle(dict(s, data=data), tmp)
@@ -326,7 +409,14 @@ def search(ctx, seeds, full=False):
             items = G.c02_items(rng, ctx.quick)
             for it in items:
                 for sizes in G.pick_chunkings(it, rng, per):
-                    try_insp(it['fmt'], it['data'], sizes, it['expect'], it['label'], it['cli'])
+                    try_insp(it['fmt'], it['data'], sizes, it['expect'], it['label'], it['cli'], pick_feed(rng))
+                if it['expect'] != 'free' and not it.get('maxk'):
+                    # whole stream / header-sized first chunk through ONE reused buffer that afterwards holds a
+                    # clean header of the same format
+                    n = len(it['data'])
+                    for sizes in ([n], [min(n, 512), max(0, n - 512)]):
+                        try_insp(it['fmt'], it['data'], sizes, it['expect'], it['label'], it['cli'],
+                                 rng.choice(['memoryview', 'memoryview', 'bytearray']))
             files = [it for it in items if len(it['data']) <= 64 * images.K and it['cli'] != 'free']
             rng.shuffle(files)
             for it in files[:(60 if ctx.quick else 400) * (2 if full else 1)]:
@@ -351,9 +441,9 @@ def model_agrees(ctx, case):
         return False
     data = G.decode_content(case['content'])
     if case['kind'] == 'insp':
-        impl, _ = insp_impl.run_insp(case['fmt'], data, case['sizes'])
+        vs = impl_verdicts(case['fmt'], data, case['sizes'], case.get('feed', 'bytes'))
         model = ctx.driver.ask(G.insp_req(case['fmt'], data, case['sizes']))
-        return proj(impl) == proj(model)
+        return all(v == proj(model) for v in vs)
     if case['kind'] == 'cli':
         tmp = tempfile.mkdtemp(prefix='verif-C02k-')
         try:
@@ -416,11 +506,13 @@ def replay(ctx, payload):
     data = G.decode_content(case['content'])
     print('image: %s, %d bytes, expectation by construction: %s' % (case.get('label'), len(data), case.get('expect')))
     if kind == 'insp':
-        impl, _ = insp_impl.run_insp(case['fmt'], data, case['sizes'])
-        print('chunk sizes   :', case['sizes'][:40])
-        print('implementation:', impl.split('\t')[-1])
-        print('model         :', ctx.driver.ask(G.insp_req(case['fmt'], data, case['sizes'])).split('\t')[-1])
-        why = insp_oracle(case['fmt'], data, case['sizes'], case.get('expect', 'free'))
+        feed = case.get('feed', 'bytes')
+        print('chunk sizes   :', case['sizes'][:40], '' if feed == 'bytes' else
+              '(each chunk a %s of one reused buffer, refilled with a clean %s header afterwards)' % (feed, case['fmt']))
+        for k, v in enumerate(impl_verdicts(case['fmt'], data, case['sizes'], feed)):
+            print('implementation, verdict taken %s: %s' % (('once', 'twice', 'three times')[k], v))
+        print('model         :', proj(ctx.driver.ask(G.insp_req(case['fmt'], data, case['sizes']))))
+        why = insp_oracle(case['fmt'], data, case['sizes'], case.get('expect', 'free'), feed)
         print('property oracle on the implementation:', why)
         if why and case['fmt'] == 'vmdk' and G.in_class_f1(data):
             print('input lies in class KF_F1; model reproduces the verdict: %s' % model_agrees(ctx, case))
